@@ -42,7 +42,8 @@ TTc ==
 
 \* a request that names a content type nobody registered and whose Accept admits no registered type either has no
 \* codec for its reply: whatever error it gets is not C04's business
-NoCodecAtAll(e) == e.reqct \notin Offers /\ Admitted(e.accept) = {}
+\* (a google.api.HttpBody reply needs no codec: it travels raw under its own content type)
+NoCodecAtAll(e) == e.kind # "httpbody" /\ e.reqct \notin Offers /\ Admitted(e.accept) = {}
 JudgeResp(e) ==
   IF e.crash # "" THEN {"ResponseDecodable"}
   ELSE IF NoCodecAtAll(e) THEN {}
